@@ -17,7 +17,8 @@ META = {
                   "fingerprints); fingerprint_sensitive (the converse, no side condition: equal fingerprints => the reachable parts are "
                   "isomorphic, so every difference in a reachable code or in which function a reference denotes shows; it rests on the "
                   "placeholder of a function in progress carrying the function's ordinal, function.go since 7738be5 -- the finding of the "
-                  "earlier, name-only model: same-named functions in progress); iso_relates_every_reachable_function. Tie: the harness "
+                  "earlier, name-only model: same-named functions in progress); iso_relates_every_reachable_function; fingerprint_sensitive_to_payload (change the code identity -- bytecode, constants, every non-function value, which builtin, which range -- "
+                  "of ONE function reachable from the target and nothing else: the fingerprint is unequal). Tie: the harness "
                   "replays the encoder's traversal over the live function graph of each program's target and the Coq model must reproduce "
                   "the token tree seen in the implementation's decoded fingerprint: expanded function environments, placeholders WITH their "
                   "ordinals, repeated (memo-referenced) function environments with the ordinal of the function referred to. "
